@@ -75,9 +75,10 @@ def run(res, tier):
                             cases.append((imp, cur, n, mode, td, zoom, ()))
     pl.warm(exe, [["-s", n, "-N", 8, "-T", 0.125, "--padding", 4] + IMPS["collimator"] for n in ns + [65]], "c05warm")
     # single deviations of the numerical options from the base run (collimator, middle current): each must leave the relation intact
-    DEV = [["--InterpolationPoints", 3], ["--derivation", 3], ["--PhaseSpaceSize", 10], ["--PhaseSpaceShiftX", 2], ["--PhaseSpaceShiftY", -2], ["--alpha0", 3.5e-3],
-           ["--RenormalizeCharge", 5], ["--LinearRF", "false"], ["--padding", 2], ["--InterpolationPoints", 3, "--derivation", 3]]
-    devs = DEV if tier == "thorough" else DEV[:6]
+    DEV = [["--InterpolateClamped", "true"], ["--InterpolationPoints", 3], ["--derivation", 3], ["--PhaseSpaceSize", 10], ["--PhaseSpaceShiftX", 2], ["--PhaseSpaceShiftY", -2], ["--alpha0", 3.5e-3],
+           ["--RenormalizeCharge", 5], ["--LinearRF", "false"], ["--padding", 2], ["--InterpolationPoints", 3, "--derivation", 3],
+           ["--RoundPadding", "false", "--padding", 3.3], ["--FPTrack", 0], ["--InterpolateClamped", "true", "--InterpolationPoints", 3]]
+    devs = DEV if tier == "thorough" else DEV[:7]
     for dv in devs:
         cases.append(("collimator", CURRENTS["collimator"][1], 64, ("Ts", 128), 2.0, 1.2, tuple(dv)))
     # an odd grid size (every impedance once in the thorough tier)
